@@ -75,6 +75,14 @@ type Fire struct {
 	// Spin > 0: the write is made by another goroutine after that many scheduler yields (it
 	// lands around the moment the run returns and the rerunner arms itself)
 	Spin int `json:"spin,omitempty"`
+	// Arm > 0: the write is made by a goroutine that is already spinning when the run returns;
+	// it is let go by the hook between the run's return and the rerunner arming itself, and
+	// writes after Arm more spins (At, After, Mid do not apply)
+	Arm int `json:"arm,omitempty"`
+	// ArmEarly: the spinning writer is let go by the run's last statement instead of the hook
+	ArmEarly bool `json:"arm_early,omitempty"`
+	// ArmLate: the run spins that many times between its write and its return
+	ArmLate int `json:"arm_late,omitempty"`
 }
 
 type Action struct {
@@ -147,6 +155,7 @@ type Machine struct {
 
 // Hits counts the interesting interleavings that actually happened.
 type Hits struct {
+	ArmWrite               int32
 	Straggler              int32
 	WriteDuringRunAfterDep int32
 	WriteMid               int32
@@ -386,10 +395,47 @@ func (rn *runner) compute(ctx context.Context) (interface{}, error) {
 			m.child(ctx, rn.comp.Children[0], rn, -1)
 		}()
 	}
+	var arm *armState
+	var armFire Fire
+	for _, f := range rn.comp.Fire {
+		if f.Run == run && f.Arm > 0 && arm == nil {
+			arm = &armState{}
+			armFire = f
+			atomic.AddInt32(&m.stragglers, 1)
+			go func(f Fire, a *armState) {
+				defer atomic.AddInt32(&m.stragglers, -1)
+				t0 := time.Now()
+				for n := 1; atomic.LoadInt32(&a.state) != 1; n++ {
+					if n%4096 == 0 && time.Since(t0) > 20*time.Millisecond && atomic.CompareAndSwapInt32(&a.state, 0, 2) {
+						return // the run takes its time or took another way out: no write
+					}
+				}
+				// the run has written and is returning: wait for the hook behind the return
+				t0 = time.Now()
+				for n := 1; atomic.LoadInt32(&armEpoch) == a.epoch; n++ {
+					if n%4096 == 0 && time.Since(t0) > time.Second {
+						break
+					}
+				}
+				for i := 0; i < f.Arm; i++ {
+					spinSink++
+				}
+				atomic.AddInt32(&m.hits.ArmWrite, 1)
+				// the value was written when the run ended (see below); this is the notification
+				if a.strobe {
+					a.res.Strobe()
+				} else {
+					a.res.Invalidate()
+				}
+				time.Sleep(20 * time.Microsecond)
+				atomic.AddInt32(&armActive, -1)
+			}(f, arm)
+		}
+	}
 	seen := map[int]int{}
 	fire := func(at int, after bool) {
 		for _, f := range rn.comp.Fire {
-			if f.Run == run && f.At == at && f.After == after && !f.Mid {
+			if f.Run == run && f.At == at && f.After == after && !f.Mid && f.Arm == 0 {
 				if after {
 					atomic.AddInt32(&m.hits.WriteDuringRunAfterDep, 1)
 				}
@@ -463,8 +509,50 @@ func (rn *runner) compute(ctx context.Context) (interface{}, error) {
 	rn.lastSeen, rn.lastOK = seen, run
 	rn.lastRegs = rn.curRegs
 	rn.mu.Unlock()
+	if arm != nil && atomic.CompareAndSwapInt32(&arm.state, 0, 3) {
+		// the write itself happens here; its notification (Invalidate or Strobe of the
+		// resource readers registered) is left to the spinning goroutine
+		s := m.slots[armFire.Slot%len(m.slots)]
+		s.mu.Lock()
+		s.version++
+		arm.strobe = s.strobe
+		arm.res = s.res
+		if !s.strobe {
+			m.newRes(s)
+		}
+		s.mu.Unlock()
+		arm.epoch = atomic.LoadInt32(&armEpoch)
+		if armFire.ArmEarly {
+			arm.epoch-- // do not wait for the hook: go when the run returns
+		}
+		atomic.AddInt32(&armActive, 1)
+		atomic.StoreInt32(&arm.state, 1)
+		// the notification needs a head start to land while the rerunner arms itself
+		for i := 0; i < armFire.ArmLate; i++ {
+			spinSink2++
+		}
+	}
 	return nil, nil
 }
+
+// armState: one spinning writer. state 0 = the run is still at work, 3 = the run is writing,
+// 1 = written (res, strobe, epoch are set), 2 = the writer gave up before the run ended.
+type armState struct {
+	state  int32
+	epoch  int32
+	res    *reactive.Resource
+	strobe bool
+}
+
+// armEpoch is bumped by the hook at rerunner.afterRun (between a run's return and the
+// rerunner arming itself); spinning writers go when it moves.
+var armEpoch int32
+
+// armActive counts spinning writers between "the run has written" and shortly after their
+// notification.
+var armActive int32
+
+var spinSink, spinSink2 int
 
 var yieldState struct {
 	mu   sync.Mutex
@@ -484,6 +572,14 @@ func init() {
 		}
 	}
 	reactive.VerifYield = func(site string) {
+		if site == "rerunner.afterRun" {
+			atomic.AddInt32(&armEpoch, 1)
+		}
+		if atomic.LoadInt32(&armActive) > 0 {
+			// a spinning writer is about to notify or notifying: no perturbation, the hook
+			// costs what it costs without a harness
+			return
+		}
 		yieldState.mu.Lock()
 		if !yieldState.on {
 			yieldState.mu.Unlock()
@@ -845,7 +941,7 @@ func Run(c Case, checkCleanup bool) (Result, string, error) {
 	h := m.hits
 	for k, v := range map[string]bool{"write-after-dep-during-run": h.WriteDuringRunAfterDep > 0, "write-between-capture-and-add": h.WriteMid > 0,
 		"shared-slot-write": h.SharedSlotWrite > 0, "stop-during-run": h.StopDuringRun > 0, "cache-reuse": h.CacheReuse > 0,
-		"child-recomputed": h.ChildRecomputed > 0, "purge": h.Purge > 0, "expire": h.Expire > 0, "yields": len(c.Yields) > 0, "child-skipped-some-run": h.ChildSkipped > 0, "foreign-registration": h.Foreign > 0, "straggler": h.Straggler > 0} {
+		"child-recomputed": h.ChildRecomputed > 0, "purge": h.Purge > 0, "expire": h.Expire > 0, "yields": len(c.Yields) > 0, "child-skipped-some-run": h.ChildSkipped > 0, "foreign-registration": h.Foreign > 0, "straggler": h.Straggler > 0, "write-while-arming": h.ArmWrite > 0} {
 		if v {
 			res.Labels = append(res.Labels, k)
 		}
@@ -945,6 +1041,14 @@ func Gen(t *rapid.T, cacheDepth int, hooks bool) Case {
 			}
 			if f.At == len(comp.Reads) && !f.Mid && rapid.Bool().Draw(t, "fspin") {
 				f.Spin = rapid.SampledFrom([]int{1, 2, 4, 8, 16, 40}).Draw(t, "spin")
+			}
+			if f.Spin == 0 && rapid.IntRange(0, 2).Draw(t, "farm") == 0 {
+				f.Arm = rapid.IntRange(1, 1200).Draw(t, "arm")
+				f.ArmEarly = rapid.Bool().Draw(t, "armearly")
+				if f.ArmEarly {
+					f.Arm = rapid.SampledFrom([]int{1, 1, 1, 100, 400}).Draw(t, "armskew")
+					f.ArmLate = rapid.IntRange(0, 6000).Draw(t, "armlate")
+				}
 			}
 			comp.Fire = append(comp.Fire, f)
 		}
